@@ -118,8 +118,22 @@ def run_case(case):
                     violations.append(viol(key, f"{obs['serial']} flags={case['flags']}: decoding the answer to read("
                                            f"{sr['first']}, {sr['count']}) asked for {sr['size']} bytes at byte "
                                            f"{sr['pos']} (register {addr}) and got {sr['got']}"))
+    for sg in obs.get("singles", []):
+        for sr in sg["short_reads"]:
+            if sr["first"] is None:
+                continue
+            addr = sr["first"] + (sr["pos"] or 0) // 2
+            cands = [s.id_ for s in sg["sensors"] if s.offset <= addr < s.offset + max(1, (R.WIDTH.get(type(s).__name__, 2) + 1) // 2)]
+            sid = cands[-1] if cands else f"@{addr}"
+            key = f"C14:short-read:{fam}.{sr['first']}:{sid}"
+            if key not in keys:
+                keys.add(key)
+                violations.append(viol(key, f"{obs['serial']} flags={case['flags']}: read_sensor({sg['id']!r}): decoding "
+                                       f"the answer to read({sr['first']}, {sr['count']}) asked for {sr['size']} bytes "
+                                       f"at byte {sr['pos']} (register {addr}) and got {sr['got']}"))
     world.events = []
     world.log("summary", fam, obs["serial"], case["flags"], [p["rec"]["outcome"] for p in obs["polls"]], sorted(keys))
     sig = (fam, case["tag"], case["power"], tuple(case["flags"]))
     return C.package(world, case, violations, sig, True, {"configs": 1, "sensor_windows_checked": checked,
-                                                         "polls": len(obs["polls"])})
+                                                         "polls": len(obs["polls"]),
+                                                         "single_reads_monitored": len(obs.get("singles", []))})
